@@ -20,12 +20,12 @@ impl Place {
         match self.mode {
             0 => 16.0 + x0,
             1 => 0.5 + 6.0 * (x0 - if is_y { self.cy } else { self.cx }),
-            // Mode 2: long edges with non-integer coordinates.  x0 -> A + 2^20 x0 with A = 70.8486328125 (x) / 302.5009765625 (y):
+            // Mode 2: long edges with non-integer coordinates.  x0 -> A + 1048573 x0 (an odd 20-bit factor, so that edge vectors have many significant bits) with A = 70.8486328125 (x) / 302.5009765625 (y):
             // lattice edges become ~10^6 long, perturbations are multiples of 2^-30 (one ulp at 2^22).  All values are
             // representable (<= 52 significant bits); the products of the naive determinant need ~75 bits, so its rounding
             // error (~2^-7) exceeds the true determinant of a few 2^-9 - the regime where unguarded arithmetic gives a
             // wrong, non-zero sign.
-            _ => (if is_y { 302.5009765625 } else { 70.8486328125 }) + 1048576.0 * x0,
+            _ => (if is_y { 302.5009765625 } else { 70.8486328125 }) + 1048573.0 * x0,
         }
     }
     fn unit(&self) -> f64 { match self.mode { 0 => U, 1 => V, _ => 9.313225746154785e-10 } }
@@ -160,4 +160,62 @@ pub fn lattice_orient(cx: &mut Ctx, case: &Value) {
     let got = Line::new(i(a), i(b)).intersects(&Line::new(i(c), i(d)));
     let want = case["rel"]["kind"] != "none";
     if got == want { cx.ok("segment_intersects_i64"); } else { cx.bad("C03", "segment_intersects_i64", case, json!({"got": got, "want": want})); }
+}
+
+/// Gen_Cassini cases: a = (0,0), b = (F(n+1), F(n)), c = (F(m+1), F(m)); exact orientation known from d'Ocagne's identity.
+/// Coordinates have up to 31 significant bits, so every input below is exactly representable; the determinant is a small
+/// integer (times the square of the scale) although its two products are ~2^60.
+pub fn kernel_fib_case(cx: &mut Ctx, n: u64, case: &Value) {
+    if !cx.wants("C03") {
+        return;
+    }
+    let g = |k: &str| (case[k][0].as_f64().unwrap(), case[k][1].as_f64().unwrap());
+    let (b0, c0) = (g("b"), g("c"));
+    let so = case["orient"].as_i64().unwrap();
+    if n % 37 == 0 {
+        cx.sample(case.clone());
+    }
+    cx.count("kernel_fib_cases", 1);
+    // exact images: scalings by powers of two, the eight symmetries of the square, small integer translations
+    let d4: [(f64, f64, f64, f64, i64); 8] = [(1.0, 0.0, 0.0, 1.0, 1), (0.0, -1.0, 1.0, 0.0, 1), (-1.0, 0.0, 0.0, -1.0, 1), (0.0, 1.0, -1.0, 0.0, 1),
+                                              (-1.0, 0.0, 0.0, 1.0, -1), (1.0, 0.0, 0.0, -1.0, -1), (0.0, 1.0, 1.0, 0.0, -1), (0.0, -1.0, -1.0, 0.0, -1)];
+    for (si, scale) in [1.0f64, 2f64.powi(-20), 2f64.powi(-31), 2f64.powi(12), 2f64.powi(-200)].iter().enumerate() {
+        for (di, (m0, m1, m2, m3, dsign)) in d4.iter().enumerate() {
+            if (di + si + n as usize) % 3 != 0 && di != 0 {
+                continue;
+            }
+            let t = if si == 0 && di % 2 == 0 { (3.0, -5.0) } else { (0.0, 0.0) };
+            let f = |p: (f64, f64)| Coord { x: (m0 * p.0 + m1 * p.1 + t.0) * scale, y: (m2 * p.0 + m3 * p.1 + t.1) * scale };
+            let (a, b, c) = (f((0.0, 0.0)), f(b0), f(c0));
+            let want = so * dsign;
+            let what = format!("scale 2^{} symmetry {di}", scale.log2());
+            let got = sign_of(RobustKernel::orient2d(a, b, c));
+            if got == want { cx.ok("fib_orient2d"); } else { cx.bad("C03", "fib_orient2d", case, json!({"what": what, "got": got, "want": want})); }
+            let got = sign_of(RobustKernel::orient2d(c, a, b));
+            if got == want { cx.ok("fib_orient2d"); } else { cx.bad("C03", "fib_orient2d", case, json!({"what": format!("{what} rotated arguments"), "got": got, "want": want})); }
+            // ring a -> b -> apex -> a with the apex on the left of a b (b turned by a quarter turn about a): c is inside iff it is left of a b
+            // (the image of the apex that is on the left of a b in the original frame: c is inside iff it was left of a b there)
+            let apex = f((-b0.1, b0.0));
+            let ring = LineString::new(vec![a, b, apex, a]);
+            let want_pos = if so == 1 { "I" } else { "E" };
+            for (rw, r) in [("ccw", ring.clone()), ("cw", LineString::new(vec![a, apex, b, a])), ("rotated", LineString::new(vec![b, apex, a, b]))] {
+                let got = pos_char(coord_pos_relative_to_ring(c, &r));
+                if got == want_pos { cx.ok("fib_point_in_ring"); } else { cx.bad("C03", "fib_point_in_ring", case, json!({"what": format!("{what} ring {rw}"), "got": got, "want": want_pos})); }
+            }
+            let got = pos_char(Polygon::new(ring.clone(), vec![]).coordinate_position(&c));
+            if got == want_pos { cx.ok("fib_point_in_polygon"); } else { cx.bad("C03", "fib_point_in_polygon", case, json!({"what": what, "got": got, "want": want_pos})); }
+            let tri = Triangle::new(a, b, apex);
+            let got = pos_char(tri.coordinate_position(&c));
+            if got == want_pos { cx.ok("fib_point_in_triangle"); } else { cx.bad("C03", "fib_point_in_triangle", case, json!({"what": what, "got": got, "want": want_pos})); }
+            let got = Line::new(a, b).intersects(&c);
+            if !got { cx.ok("fib_point_on_segment"); } else { cx.bad("C03", "fib_point_on_segment", case, json!({"what": what, "got": got, "want": false})); }
+            let wo = LineString::new(vec![a, b, c, a]).winding_order();
+            let want_wo = if want == 1 { Some(WindingOrder::CounterClockwise) } else { Some(WindingOrder::Clockwise) };
+            if wo == want_wo { cx.ok("fib_winding_order"); } else { cx.bad("C03", "fib_winding_order", case, json!({"what": what, "got": format!("{wo:?}"), "want": format!("{want_wo:?}")})); }
+            // the segment from c to the apex side / away from it: meets a b iff c is on the far side
+            let inner = f((-b0.1 / 2.0, b0.0 / 2.0));        // a point well inside the triangle (coordinates halved: exact)
+            let meets = Line::new(a, b).intersects(&Line::new(c, inner));
+            if meets == (want_pos == "E") { cx.ok("fib_segment_intersects"); } else { cx.bad("C03", "fib_segment_intersects", case, json!({"what": what, "got": meets, "want": want_pos == "E"})); }
+        }
+    }
 }
